@@ -4,6 +4,9 @@ Differential monitor: one mjw.step() versus mujoco.mj_step() from the same float
 qacc_warmstart and all inputs), for Euler (implicit damping on/off, polynomial damping), implicitfast, implicit and RK4;
 lock-step trajectories of up to 3 steps re-synchronised on MuJoCo's float32-rounded result after every step.
 Post-solver quantities of constrained worlds are judged only under the gating rule (mon/props/_step.py).
+A 'flags' family crosses every integrator with directed combinations of disable flags (DAMPER, EULERDAMP, SPRING, ACTUATION,
+GRAVITY, CLAMPCTRL, FRICTIONLOSS, LIMIT, EQUALITY, CONSTRAINT, CONTACT, WARMSTART, REFSAFE) on damped / polynomially damped
+models; a flag counts as exercised only where MuJoCo's own step changes when it is cleared again.
 """
 
 import mujoco
@@ -37,6 +40,11 @@ ASSUMPTIONS = [
   "MJWarp 3.12 does not: version skew)",
   "IMPLICIT: a qvel/qpos mismatch that equals the solution of the sign-flipped RNE-derivative system is reported under the "
   "single mechanism signature implicit:rne_derivative_sign; any other mismatch keeps its own signature",
+  "mechanism relabelling (never suppresses a mismatch): a mismatch that equals MuJoCo's step with the actuator forces clamped "
+  "in MJWarp's order (forcerange before tendon actuatorfrcrange), or an act mismatch that equals the input act clamped to "
+  "actrange under ACTUATION disabled, is reported under its mechanism signature instead of the generic field signature",
+  "flags family: disable flags are set on the compiled model (opt.disableflags); for clampctrl / frictionloss / damper cases "
+  "ctrlrange, dof_frictionloss, dof_damping are edited post-compile when the generated model lacks the feature",
 ]
 BUDGET = {"quick": 200, "thorough": 1800}
 
@@ -209,8 +217,19 @@ def build_model(case, rng):
   if case.get("flags"):
     names = list(case["flags"])
     enable = []
+    rf = np.random.default_rng([int(case["seed"]) & 0xFFFFFFFF, 0xF1A6])  # own stream: `rng` draws stay as without flags
+    # make the directed flag matter (post-compile edits of plain numeric model fields, as for dof_dampingpoly below)
+    if "clampctrl" in names and mjm.nu:
+      free = np.flatnonzero(mjm.actuator_ctrllimited == 0)
+      mjm.actuator_ctrlrange[free] = np.sort(rf.uniform(-0.6, 0.8, size=(free.size, 2)), axis=1) + np.array([-0.05, 0.05])
+      mjm.actuator_ctrllimited[:] = 1
+    scal = [j for j in range(mjm.njnt) if int(mjm.jnt_type[j]) in (int(mujoco.mjtJoint.mjJNT_HINGE), int(mujoco.mjtJoint.mjJNT_SLIDE))]
+    if "frictionloss" in names and scal and not np.any(mjm.dof_frictionloss > 0):
+      mjm.dof_frictionloss[mjm.jnt_dofadr[scal[int(rf.integers(len(scal)))]]] = rf.uniform(0.1, 1.0)
+    if "damper" in names and mjm.nv and not np.any(mjm.dof_damping > 0):
+      j = int(rf.integers(mjm.njnt))
+      mjm.dof_damping[mjm.dof_jntid == j] = rf.uniform(0.2, 2.0)
     if case.get("extra_flags"):
-      rf = np.random.default_rng([int(case["seed"]) & 0xFFFFFFFF, 0xF1A6])  # own stream: states stay as in round 0
       names += [n for n in FLAG_POOL if n not in names and rf.random() < 0.12]
       enable = [n for n in ENABLE_POOL if rf.random() < 0.3]
     mjm.opt.disableflags |= flag_bits(names)
@@ -309,6 +328,120 @@ def capacity_zero(rec, case, xml, mjm, m, states):
   return rec.result()
 
 
+SIG_TENDON_ORDER = "actuation:tendon_actfrcrange_scaled_after_forcerange_clamp"
+SIG_ACT_DISABLED = "advance:act_clamped_to_actrange_although_actuation_disabled"
+
+
+def tendon_clamp_order_hypothesis(mjm, st):
+  """MuJoCo's step from `st` with the actuator forces recomputed in the order MJWarp uses: per-actuator forcerange clamp
+  first (inside forward._actuator_force), tendon total-force scaling (tendon actuatorfrcrange) second.  MuJoCo 3.13 scales
+  the unclamped forces by the tendon range first and clamps to forcerange afterwards.  The force difference is injected as
+  an applied generalised force.  None when the two orders agree in this state or the emulation would not be exact."""
+  import copy
+
+  TEN = int(mujoco.mjtTrn.mjTRN_TENDON)
+  if not mjm.nu or not mjm.ntendon or (mjm.opt.disableflags & int(mujoco.mjtDisableBit.mjDSBL_ACTUATION)):
+    return None
+  ten_act = [i for i in range(mjm.nu) if int(mjm.actuator_trntype[i]) == TEN]
+  if not any(mjm.actuator_forcelimited[i] and mjm.tendon_actfrclimited[mjm.actuator_trnid[i, 0]] for i in ten_act):
+    return None
+  m0 = copy.copy(mjm)
+  m0.actuator_forcelimited[:] = 0
+  m0.tendon_actfrclimited[:] = 0
+  d0 = mujoco.MjData(m0)
+  mw.apply_state_mj(m0, d0, st)
+  mujoco.mj_forward(m0, d0)
+  raw = np.array(d0.actuator_force)
+  d1 = mujoco.MjData(mjm)
+  mw.apply_state_mj(mjm, d1, st)
+  mujoco.mj_forward(mjm, d1)
+  f_mj = np.array(d1.actuator_force)
+
+  def scale_tendon(f):
+    tot = np.zeros(mjm.ntendon)
+    for i in ten_act:
+      tot[mjm.actuator_trnid[i, 0]] += f[i]
+    for i in ten_act:
+      t = int(mjm.actuator_trnid[i, 0])
+      if mjm.tendon_actfrclimited[t]:
+        lo, hi = mjm.tendon_actfrcrange[t]
+        if tot[t] < lo:
+          f[i] *= lo / tot[t]
+        elif tot[t] > hi:
+          f[i] *= hi / tot[t]
+    return f
+
+  def clamp_force(f):
+    for i in range(mjm.nu):
+      if mjm.actuator_forcelimited[i]:
+        f[i] = np.clip(f[i], *mjm.actuator_forcerange[i])
+    return f
+
+  tol = 1e-9 * max(1.0, float(np.abs(raw).max()))
+  if np.abs(clamp_force(scale_tendon(raw.copy())) - f_mj).max() > tol:
+    return None  # this model of MuJoCo's own order does not reproduce MuJoCo: claim nothing
+  delta = scale_tendon(clamp_force(raw.copy())) - f_mj
+  if np.abs(delta).max() <= tol:
+    return None
+  dq = _step._actuator_moment_dense(mjm, d1).T @ delta
+  for j in range(mjm.njnt):
+    if mjm.jnt_actfrclimited[j]:
+      a = int(mjm.jnt_dofadr[j])
+      n = {int(mujoco.mjtJoint.mjJNT_FREE): 6, int(mujoco.mjtJoint.mjJNT_BALL): 3}.get(int(mjm.jnt_type[j]), 1)
+      if np.any(dq[a : a + n] != 0):
+        return None  # a joint-level actuator force clamp sits behind the changed force: an applied force is not equivalent
+  st2 = dict(st)
+  st2["qfrc_applied"] = np.asarray(st["qfrc_applied"], dtype=np.float64) + dq
+  d2 = mujoco.MjData(mjm)
+  mw.apply_state_mj(mjm, d2, st2)
+  mujoco.mj_step(mjm, d2)
+  return {"qvel": np.array(d2.qvel), "qpos": np.array(d2.qpos), "qacc_warmstart": np.array(d2.qacc_warmstart), "qacc": np.array(d2.qacc), "delta": delta, "f_mj": f_mj}
+
+
+def mechanism_probe(mjm, prefix):
+  """step_compare callback: a world whose generic qvel / qpos / qacc_warmstart mismatch equals MuJoCo's step with the actuator
+  forces clamped in MJWarp's order is reported once under the mechanism signature SIG_TENDON_ORDER instead."""
+  from mon import cmp
+
+  generic = {prefix + k for k in ("qvel", "qpos", "qpos_quat", "qacc_warmstart")}
+  seen = [0]
+
+  def extra(rec, got, w, st, ref, noise, verdict):
+    mine = [v for v in rec.violations[seen[0] :] if v["sig"] in generic]
+    if mine:
+      hyp = tendon_clamp_order_hypothesis(mjm, st)
+      if hyp is not None:
+        nv = mjm.nv
+        tmp = core.Rec({})
+        accscale = max(1.0, float(np.abs(hyp["qacc"]).max()))
+        cmp.judge(tmp, "qacc_warmstart", got["qacc_warmstart"][w][:nv], hyp["qacc_warmstart"], _step.A_ACC, noise["qacc_warmstart"])
+        _step._judge_post(tmp, mjm, got, w, hyp, noise, accscale, prefix, "", _step.A_ACC)
+        if not tmp.violations and not tmp.inconclusive:
+          keep = [v for v in rec.violations if not any(v is x for x in mine)]
+          rec.violations[:] = keep
+          rec.count("reproduced:tendon_clamp_order")
+          rec.viol(SIG_TENDON_ORDER, "next qvel/qpos/qacc_warmstart differ from MuJoCo and equal (within the float32 bound) MuJoCo's step with the actuator forces recomputed in MJWarp's order: forcerange clamp first (forward._actuator_force), tendon actuatorfrcrange scaling second (forward._tendon_actuator_force_clamp); MuJoCo scales by the tendon range first and clamps to forcerange last; " + f"actuator_force mujoco={np.round(hyp['f_mj'], 5).tolist()} mjwarp-order delta={np.round(hyp['delta'], 5).tolist()}; first field: {mine[0]['msg'][:200]}", **mine[0].get("data", {}))
+    acts = [v for v in rec.violations[seen[0] :] if v["sig"] == prefix + "act"]
+    if acts and mjm.na and (mjm.opt.disableflags & int(mujoco.mjtDisableBit.mjDSBL_ACTUATION)):
+      # ACTUATION disabled: MuJoCo's mj_advance leaves act untouched; does MJWarp's act equal next_act with act_dot = 0,
+      # i.e. the input activation clamped to actrange?
+      a0 = np.asarray(st["act"], dtype=np.float64)
+      hyp = a0.copy()
+      for i in range(mjm.nu):
+        if mjm.actuator_actlimited[i] and mjm.actuator_actadr[i] >= 0:
+          k = int(mjm.actuator_actadr[i]) + int(mjm.actuator_actnum[i]) - 1
+          hyp[k] = np.clip(a0[k], *mjm.actuator_actrange[i])
+      tmp = core.Rec({})
+      cmp.judge(tmp, "act", got["act"][w][: mjm.na], hyp, _step.A_PRE, noise["act"])
+      if np.abs(hyp - a0).max() > 0 and not tmp.violations and not tmp.inconclusive:
+        rec.violations[:] = [v for v in rec.violations if not any(v is x for x in acts)]
+        rec.count("reproduced:act_clamped_actuation_disabled")
+        rec.viol(SIG_ACT_DISABLED, "ACTUATION disabled: MuJoCo's mj_advance skips the activation update (act stays as given, here outside actrange), MJWarp's forward._advance always launches _next_activation, which with act_dot = 0 clamps act to actrange; " + f"act in={a0.tolist()} mujoco={np.asarray(ref['act']).tolist()} mjwarp={np.asarray(got['act'][w][: mjm.na]).tolist()}; {acts[0]['msg'][:200]}", **acts[0].get("data", {}))
+    seen[0] = len(rec.violations)
+
+  return extra
+
+
 def flag_effect_probe(mjm, names, integ):
   """Per judged world: which of the disabled flags actually mattered?  MuJoCo's own step from the same state with that one
   flag cleared again gives a different next qvel / act (so a flag test that MJWarp drops or widens is observable in this
@@ -358,8 +491,15 @@ def run_case(case):
   integ = case["integrator"]
   if case["kind"] == "cap0":
     return capacity_zero(rec, case, xml, mjm, m, states)
-  extra = flag_effect_probe(mjm, [f[8:] for f in feat if f.startswith("disable:")], integ) if case["kind"] == "flags" else None
-  res = _step.step_compare(rec, mjm, m, states, nsteps=case["nsteps"], seed=case["seed"], prefix=integ + ":", extra=extra)
+  probes = [mechanism_probe(mjm, integ + ":")]
+  if case["kind"] == "flags":
+    probes.append(flag_effect_probe(mjm, [f[8:] for f in feat if f.startswith("disable:")], integ))
+
+  def extra(*a):
+    for p in probes:
+      p(*a)
+
+  res =_step.step_compare(rec, mjm, m, states, nsteps=case["nsteps"], seed=case["seed"], prefix=integ + ":", extra=extra)
   judged = res["gated"] + res["free"]
   rec.cover("integrator:" + integ, judged)
   rec.cover("kind:" + case["kind"], judged)
@@ -411,9 +551,12 @@ def requirements(agg, tier):
     if f not in feats:
       unmet.append(f"feature never judged: {f}")
   # disable-flag family: the flag must have mattered (MuJoCo's own step changes when it is cleared) in a judged world
+  thin = ("frictionloss", "limit", "equality")  # depend on which constraints the few quick-tier models happen to activate
   for n in FLAGS_REQUIRED:
-    if not cov.get("flag_effective:" + n):
+    if not cov.get("flag_effective:" + n) and (tier != "quick" or n not in thin):
       unmet.append(f"disable flag {n}: no judged world in which the flag changes the step")
+  if sum(1 for n in thin if cov.get("flag_effective:" + n)) < 2:
+    unmet.append("fewer than 2 of the constraint disable flags (frictionloss, limit, equality) effective in a judged world")
   for integ in INTEGRATORS:
     if not cov.get(f"flag_effective:damper:{integ}"):
       unmet.append(f"disable flag damper never effective in a judged {integ} world")
